@@ -224,6 +224,9 @@ class VArr(_Generic):
             elif isinstance(k, (int, SV)):
                 self._index_guard(ax_old, k)
                 moves[ax_old] = (None, "fix", k)
+            elif isinstance(k, IndexMap):
+                moves[ax_old] = (new_ax, "map", k)
+                shape.append(k.n); new_ax += 1
             else:
                 raise Unsupported(f"index of type {type(k).__name__}")
             ax_old += 1
@@ -234,6 +237,8 @@ class VArr(_Generic):
                 sub[old] = to_z3(arg) if not (isinstance(arg, int) and arg < 0) else _size_t(self.shape_[old]) + arg
             elif kind == "rev":
                 sub[old] = _size_t(arg) - 1 - V(new)
+            elif kind == "map":
+                sub[old] = arg.fn(V(new))
             else:
                 sub[old] = V(new) + to_z3(arg)
         e = subst_index(self.elem, sub)
@@ -375,6 +380,24 @@ class MGrid:
             import numpy as np
             return np.mgrid[key]
         return [VArr(shape, SV(V(a)), "int64") for a in range(len(shape))]
+
+
+class IndexMap(_Generic):
+    """an integer index array used to pick elements along one axis: out[k] = in[f(k)], length n"""
+
+    def __init__(self, name, n, source=None, kind=""):
+        self.fn = z3.Function(name, z3.IntSort(), z3.IntSort())
+        self.n, self.source, self.kind, self.name = n, source, kind, name
+        IndexMap.registry[name] = self
+
+    registry = {}
+
+    def __sym_len__(self):
+        return self.n
+
+    @property
+    def shape(self):
+        return (self.n,)
 
 
 class Spectrum(_Generic):
